@@ -1,0 +1,6 @@
+//go:build !verif
+// +build !verif
+
+package fragmentation
+
+func verifYield(point int) {}
